@@ -952,3 +952,55 @@ func (x *gen) directedJointCampaign() {
 	}
 	c.exec("flush 8")
 }
+
+// directedTwoCCBatch: the leader of three voters receives ONE proposal that carries two
+// configuration changes, each removing one of the other voters. Only the first may take effect (the
+// second is replaced by an empty entry); if both did, the leader would be the sole voter, commit on
+// its own while cut off, and the other two would elect a leader that lacks those entries.
+func (x *gen) directedTwoCCBatch() {
+	c := x.c
+	l := x.leader()
+	if l == nil || len(c.alive()) != 3 {
+		x.idle()
+		return
+	}
+	c.exec("flush 4")
+	cs := x.mostAdvancedConf()
+	if !l.alive || l.rn == nil || !x.isLeader(l) || len(cs.VotersOutgoing) > 0 || len(cs.Voters) != 3 {
+		x.idle()
+		return
+	}
+	o := x.others(l.id)
+	if len(o) != 2 {
+		return
+	}
+	a, b := o[0], o[1]
+	// b is cut off throughout; a receives the proposal's entries and acknowledges them, but never
+	// learns that they are committed
+	c.exec(fmt.Sprintf("block %d %d", l.id, b.id))
+	c.exec(fmt.Sprintf("proposebatch %d 2 0 v1:remove:%d 1 v1:remove:%d", l.id, b.id, a.id))
+	c.exec(fmt.Sprintf("process %d", l.id))
+	x.deliverAll()
+	c.exec(fmt.Sprintf("process %d", a.id))
+	x.deliverAll() // the acknowledgement reaches the leader: committed under the old configuration
+	c.exec(fmt.Sprintf("block %d %d", l.id, a.id))
+	x.net0()
+	for i := 0; i < 3; i++ {
+		c.exec(fmt.Sprintf("process %d", l.id)) // applies what it committed
+	}
+	for i := 0; i < 2; i++ {
+		c.exec(fmt.Sprintf("propose %d", l.id))
+		c.exec(fmt.Sprintf("process %d", l.id))
+		c.exec(fmt.Sprintf("process %d", l.id))
+	}
+	x.net0()
+	// the others time out and elect one of themselves (a has the longer log)
+	x.electAmong([]*Node{a, b}, x.termOf(l), nil)
+	for r := 0; r < 3; r++ {
+		c.exec(fmt.Sprintf("process %d", a.id))
+		c.exec(fmt.Sprintf("process %d", b.id))
+		x.deliverAll()
+	}
+	c.exec("unblock")
+	c.exec("flush 8")
+}
